@@ -91,6 +91,11 @@ class Engine(DbEngine):
         for i in range(150 if tier == "quick" else 3000):
             (gcls, line), _meta = e14.make_growth_case(rng, probe=True)
             out.append(("refs-growth-race", line))
+        # a store opened while its file has whole spare chunks beyond the end marker (what a growth that failed part-way, or
+        # a kill inside a multi-chunk growth, leaves behind): events stored afterwards, across the next growth steps, must
+        # keep reading back, by the offset their store returned, as the bytes submitted
+        import eng_c04
+        out += eng_c04.failed_growth_cases(rng, tier, cls="spare-chunks", reopen_after_failure=1.0, n=(8 if tier == "quick" else 150))
         return out
 
     def skip_model(self, gcls):
@@ -100,6 +105,12 @@ class Engine(DbEngine):
         return line
 
     def judge(self, gcls, line, model_out, impl_outs):
+        if gcls == "spare-chunks":
+            import eng_c04
+            v = eng_c04.judge_failed_growth(("debug",), line, impl_outs)
+            if not v.oracle_ok and v.cls == "readback-differs":
+                v.cls = "referenced-bytes-changed"
+            return v
         first = None
         for prof, o in impl_outs.items():
             if gcls == "refs-growth-race" or line.startswith("conc "):
